@@ -248,7 +248,8 @@ pub fn build_cases(cfg: &Cfg) -> Vec<Case> {
     // larger finite groups with subgroups generated by 2-3 long words (coincidence cascades)
     for g in groupcorpus::corpus() {
         if let Some(o) = g.order {
-            if o >= 48 && o <= 1200 {
+            let mixed = g.pres.rels.iter().any(|w| w.iter().any(|&x| x > 0) && w.iter().any(|&x| x < 0));
+            if (o >= 48 || (o >= 12 && mixed)) && o <= 1200 {
                 let n = g.pres.ngens as i64;
                 for _ in 0..cfg.tier.pick(150, 1500) {
                     let k = 2 + rng.below(2);
@@ -301,6 +302,17 @@ pub fn build_cases(cfg: &Cfg) -> Vec<Case> {
 
 pub fn run(cfg: &Cfg) -> Report {
     let mut report = Report::new(cfg);
+    // abandoned calls between judged cases: relators and subgroup generators that mention a generator the group
+    // does not have
+    crate::monitor::set_poison(|k| {
+        let rels = to_freewords(&[vec![1, 1, 1], vec![2, 1, -2, -1]]);
+        let subs = to_freewords(&[vec![1, 3]]);
+        if k % 2 == 0 {
+            let _ = coset_table(1, &rels, &to_freewords(&[vec![1]]));
+        } else {
+            let _ = coset_table(2, &to_freewords(&[vec![1, 1], vec![2, 2, 2], vec![1, 2, 1, 2]]), &subs);
+        }
+    });
     let cases = build_cases(cfg);
     let ctx = par_items(cfg, &cases, |ctx, k, c| {
         judge(ctx, c);
